@@ -121,6 +121,12 @@ def h_self(n: int, k: int, s1: int, r1: int, s2: int, r2: int, t2: bool, inplace
     bad = check_cat(res, t, t, tab, tab)
     if bad:
         return bad
+    z = res + 'x'
+    if [str(x) for x in z.ansi_settings_at(2 * n)] != []:
+        return ('self-cat-not-closed', S(z))
+    z2 = res + AnsiString('x', 'underline')
+    if [str(x) for x in z2.ansi_settings_at(2 * n)] != ['4']:
+        return ('self-cat-not-closed', S(z2))
     cover('self-cat')
     return True
 
